@@ -480,6 +480,7 @@ func (c *aCase) runPhase(ops [][]aOp, picks []int) []int {
 	r := c.r
 	next := make([]int, len(c.ws))
 	used := []int{}
+	steps := make([]int, len(c.ws)) // scheduler releases spent on the current call of each goroutine
 	for pi := 0; ; pi++ {
 		cand := []int{}
 		for i, w := range c.ws {
@@ -517,6 +518,7 @@ func (c *aCase) runPhase(ops [][]aOp, picks []int) []int {
 			op := ops[i][next[i]]
 			next[i]++
 			w.op, w.busy, w.fresh, w.at = op, true, true, aHookRetry
+			steps[i] = 0
 			arg := fmt.Sprint(op.sz)
 			if op.kind == "copy" {
 				arg = hexBytes(op.data)
@@ -528,6 +530,12 @@ func (c *aCase) runPhase(ops [][]aOp, picks []int) []int {
 			}
 		}
 		if !c.stepWorker(w) {
+			return used
+		}
+		// one call needs at most 3 releases per chunk slot (add, check, critical section)
+		if steps[i]++; steps[i] > 3*64+8 && w.busy {
+			c.or.fail(fmt.Sprintf("%s of goroutine %d is still retrying after %d scheduler steps (livelock: the call never returns)", w.op, w.id, steps[i]))
+			c.dead = true
 			return used
 		}
 	}
